@@ -10,6 +10,7 @@ EXPLANATION = (
     "D3 find_entry grows the candidate key by prepending components in reverse order and returns the first hit, exhaustion -> NotFound; the Distinfo::verify_* wrappers call find_entry first and propagate its error")
 NOT_DECIDED = ["digest correctness (C13 / RustCrypto)", "file-system semantics (File::open, metadata().len())", "Path component semantics"]
 CONFIG_SENSITIVE = False
+DESUGAR = True
 
 VCI = "distinfo::Entry::verify_checksum_internal"
 CC = "distinfo::Distinfo::calculate_checksum"
